@@ -8,7 +8,7 @@
    of the body loop of its Call method, as it is after repo_fixes/C07-1 .. C07-21 (every loop now has the
    test of let.go: "switch result.(type) { case *slip.ReturnResult, *GoTo: return result }"):
 
-     pkg/cl/progn.go, when.go, unless.go, cond.go, ignore-errors.go, let.go, with-open-file.go,
+     pkg/cl/progn.go, when.go, unless.go, if.go, cond.go, ignore-errors.go, let.go, with-open-file.go,
        pkg/gi/recover.go, with-mutex-lock.go, block.go, lambda.go BoundCall,
        unwind-protect.go (cleanup forms), do.go (result forms)            -> m_seq
      function.go Function.Eval (ordinary arguments), util.go processBinding (let inits) -> m_args
@@ -82,6 +82,8 @@ Inductive form :=
 | Do (n : nat) (body : list item) (res : list form)     (* (do ((i 0 (+ i 1))) ((= i n) res...) body...) *)
 | Lam (body : list form)                       (* (funcall (lambda () body...)) *)
 | CallU (i : nat)                              (* (fi): call of the i-th user function, no arguments *)
+| Unless (c : form) (body : list form)         (* unless.go: the twin of when.go *)
+| If (c : form) (a b : form)                   (* (if c a b) *)
 with item :=
 | ITag (t : N)
 | IForm (f : form).
@@ -362,6 +364,20 @@ Section M.
           match nth_error defs i with
           | None => (MErr CUndefFn, st)
           | Some body => m_catch (fn_tag i) (m_seq (ev ((true, fn_tag i) :: sc) tb) body VNil st)
+          end
+      | Unless c body =>
+          match ev sc tb c st with
+          | (MVal v, st1) =>
+              if is_marker v then (MVal v, st1)
+              else if is_nil (prim v) then m_seq (ev sc tb) body VNil st1 else (MVal VNil, st1)
+          | (o, st1) => (o, st1)
+          end
+      | If c a b =>                          (* if.go: a marker in the test is returned (C07-18); the value of the branch is returned as it is *)
+          match ev sc tb c st with
+          | (MVal v, st1) =>
+              if is_marker v then (MVal v, st1)
+              else if is_nil (prim v) then ev sc tb b st1 else ev sc tb a st1
+          | (o, st1) => (o, st1)
           end
       end
     end.
